@@ -47,6 +47,19 @@ def cases(tier, seed):
                              land=str(rng.choice(["quad", "sphere", "l1", "rosen", "ramp", "bowl4"])),
                              where=str(rng.choice(["in", "onb", "out"], p=[0.5, 0.2, 0.3])), mode=mode, cons=kind, options=opts,
                              max_fun_evals=(int(opts["fun_eval_start"]) + 40 if big_design else int(rng.choice([40, 60, 90]))), infeasible_start=infeasible)
+        if i % 7 == 3:
+            # noisy, longer runs with the constraint ACTIVE at the optimum and a near-identity transform: the
+            # incumbent re-estimation / final selection / final re-sampling paths decide what is evaluated last
+            rng2 = gen.rng_for(seed, "C02", 100000 + i)
+            spec = gen.make_spec(rng2, D=int(rng2.choice([1, 2, 3])), geom=str(rng2.choice(["nearid", "lin"], p=[0.7, 0.3])), x0mode="in",
+                                 land=str(rng2.choice(["sphere", "quad"])), where="in", mode=str(rng2.choice(["auto", "declared", "he"])), cons="halfspace",
+                                 sigma=float(rng2.choice([0.3, 1.0])), options={"noise_final_samples": int(rng2.choice([3, 10]))},
+                                 max_fun_evals=int(rng2.choice([120, 160])))
+            a = np.asarray(spec["cons"]["a"])
+            P_ = gen.Problem(spec)
+            x0t = gen.tmap(P_.x0, P_.plb, P_.pub, P_.logm)
+            spec["target"]["c"] = (x0t + a * (spec["cons"]["b"] - float(a @ x0t) + 0.3)).tolist()  # optimum beyond the constraint
+            start = "feasible"
         out.append({"spec": spec, "start": start})
     return out
 
